@@ -454,14 +454,18 @@ class ModelInputArrayBijector:
       scale_fn = lambda x, low=low, denom=denom: (np.log(x) - low) / denom
       unscale_fn = lambda x, low=low, denom=denom: np.exp(x * denom + low)
     elif spec.scale == pyvizier.ScaleType.REVERSE_LOG:
+      raw_low, raw_high = low, high
       raw_sum = low + high
       low, high = np.log(low), np.log(high)
       denom = (high - low) or 1.0
       if denom < 1e-6:
         logging.warning('Unusually small range detected for %s', spec)
 
-      def scale_fn(x, low=low, raw_sum=raw_sum, denom=denom):
-        return 1.0 - (np.log(raw_sum - x) - low) / denom
+      def scale_fn(x, low=low, raw_low=raw_low, raw_high=raw_high, denom=denom):
+        # `raw_low + (raw_high - x)` instead of `(raw_low + raw_high) - x`: the
+        # latter absorbs `raw_low` when raw_high / raw_low exceeds the floating
+        # point precision, and then maps `raw_high` to log(0) = -inf.
+        return 1.0 - (np.log(raw_low + (raw_high - x)) - low) / denom
 
       def unscale_fn(x, high=high, raw_sum=raw_sum):
         return raw_sum - np.exp(high - denom * x)
